@@ -36,9 +36,9 @@ func init() {
 		Worker: seqWorker(hk),
 		Main: func(c *explore.Ctx) {
 			var specs []seqSpec
-			d1, d2 := 4, 3
+			d1, d2 := 6, 5
 			if c.Tier == "thorough" {
-				d1, d2 = 6, 5
+				d1, d2 = 8, 7
 			}
 			specs = append(specs,
 				seqSpec{Cfg: "bigbatch/bytewise", Alpha: c11Alpha, Depth: d1, Checks: "db,views"},
